@@ -4,6 +4,8 @@ import (
 	"fmt"
 	"strings"
 
+	ysgo "github.com/remieven/ysgo"
+
 	"github.com/remieven/ysgo/verifharness/core"
 	"github.com/remieven/ysgo/verifharness/gen"
 	"github.com/remieven/ysgo/verifharness/hast"
@@ -37,11 +39,14 @@ func (c11) Thresholds(tier string) map[string]int64 {
 		"count-observations":               20000,
 		"snapshot-comparisons":             10000,
 		"non-node-name-observed":           5000,
+		"restore-in-mid-run":               500,
+		"restore-between-tracked-and-untracked-node": 100,
+		"snapshot-compared-after-failed-jump-or-error": 40,
 	}
 }
 
 func (c11) Rule() string {
-	return "case = one generated jump-graph-heavy program (2-6 nodes, self-loops and cycles bounded by a fuel variable, jumps by name and by expression from top level, option bodies and if bodies, every node tracking: never / always / unmarked at random) in which every node starts with a line printing visited_count(n) and visited(n) for every node and for a name that is no node; driven along enumerated choice paths. Oracle: the printed values and Snapshot().VisitedNodes after every step equal the model's count of completed jump-exits; observed counts never decrease and change only in steps in which the model jumps. Non-trivial: some node is left >=2 times on the path and (a node is untracked or a jump leaves from a nested body). Distinct by hash of scripts+choices."
+	return "case = one generated jump-graph-heavy program (2-6 nodes, self-loops and cycles bounded by a fuel variable, jumps by name and by expression from top level, option bodies and if bodies, every node tracking: never / always / unmarked at random) in which every node starts with a line printing visited_count(n) and visited(n) for every node and for a name that is no node; driven along enumerated choice paths; 6% of the jumps name a node that does not exist (the failed jump must not count), and now and then an earlier snapshot of the same run is restored into the running dialogue (counts must then be the snapshot's, and the next jump must count the restored node according to ITS tracking header). Oracle: the printed values and Snapshot().VisitedNodes after every step equal the model's count of completed jump-exits; observed counts never decrease and change only in steps in which the model jumps. Non-trivial: some node is left >=2 times on the path and (a node is untracked or a jump leaves from a nested body). Distinct by hash of scripts+choices."
 }
 
 func (c11) Assumptions() []string {
@@ -59,6 +64,7 @@ func (p c11) Run(c *core.Ctx) {
 	cfg.MaxNodes = 6
 	cfg.Fuel = c.R.Range(3, 14)
 	cfg.Probes = false
+	cfg.BadJumps = 6
 	if c.Idx%3 == 0 {
 		cfg.WOptions, cfg.WIf = 24, 20
 	}
@@ -76,8 +82,19 @@ func (p c11) Run(c *core.Ctx) {
 		maxPaths = 16
 	}
 	var prev map[string]int
+	type saved struct {
+		snap  *ysgo.Snapshot
+		check model.Snapshot
+	}
+	var saves []saved
+	restores := 0
 	explorePaths(c, "visit counts differ from the number of completed jump-exits", prog, scripts,
-		func() PairOpts { prev = map[string]int{}; return PairOpts{UseDefaultStore: c.R.Bool()} }, maxPaths,
+		func() PairOpts {
+			prev = map[string]int{}
+			saves = nil
+			restores = 0
+			return PairOpts{UseDefaultStore: c.R.Bool()}
+		}, maxPaths,
 		func(pr *pathRun, want model.Outcome, got mon.Obs) string {
 			snap := pr.pair.R.DR.Snapshot()
 			c.Feature("snapshot-comparisons")
@@ -98,6 +115,31 @@ func (p c11) Run(c *core.Ctx) {
 			prev = map[string]int{}
 			for k, g := range snap.VisitedNodes {
 				prev[k] = g
+			}
+			if want.Kind == model.OErr {
+				c.Feature("snapshot-compared-after-failed-jump-or-error")
+				return ""
+			}
+			// counts are "unaffected by anything but jumps and restores": now and then keep a
+			// snapshot, and later restore one into the running dialogue (both sides)
+			if c.R.Chance(1, 6) && len(saves) < 4 {
+				saves = append(saves, saved{snap: snap, check: m.Check.Clone()})
+			}
+			if len(saves) > 0 && restores < 3 && (want.Kind == model.OLine || want.Kind == model.OOptions) && c.R.Chance(1, 8) {
+				sv := saves[c.R.Intn(len(saves))]
+				from := m.Cur
+				if err := pr.pair.R.DR.RestoreAt(sv.snap); err != nil {
+					return "RestoreAt of the runner's own earlier snapshot failed: " + err.Error()
+				}
+				m.Restore(sv.check)
+				restores++
+				pr.pair.Trace = append(pr.pair.Trace, fmt.Sprintf("RestoreAt(earlier snapshot of node %s) while in node %s", sv.check.Node, from))
+				c.Feature("restore-in-mid-run")
+				if fn, tn := prog.Find(from), prog.Find(sv.check.Node); fn != nil && tn != nil && (fn.Tracking() == "never") != (tn.Tracking() == "never") {
+					c.Feature("restore-between-tracked-and-untracked-node")
+				}
+				prev = map[string]int{}
+				return ""
 			}
 			if want.Kind == model.OLine && strings.HasPrefix(want.Text, "V") {
 				c.FeatureN("count-observations", len(prog.Nodes))
